@@ -428,7 +428,7 @@ static void roundtrip(Rng &r, int p, const std::string &tid, const std::string &
       in.sam = Opt(c.value(kXSam));
     wire = rec_b3(in);
   }
-  Caller caller = make_caller(r);
+  Caller caller = make_caller(r, -1, &sc);
   context_api::Context out = extract_stable(propagator(p), c, caller, "roundtrip:" + cls, witness);
   c.kill(r.coin());
   Outcome o = judge_returned(caller, out, "roundtrip:" + cls, witness);
